@@ -1,12 +1,17 @@
 (** C07 – Position and length bookkeeping, including concurrent increments.
-    Only statements; every proof is [exact <lemma from IndProofs>]. *)
+    Only statements; every proof is [exact <lemma from IndProofs.PosProofs>]; every definition
+    used in a statement is in IndModel.Pos ([pstep], [prun], [pos_spec], [len_spec], [fin_spec],
+    [Merge], [total_delta]).  The model has no panic outcome ("never panicking" is checked on
+    the implementation only) and the fraction clause is C13_fraction_* in props/C13.v; see
+    docs/C07.md. *)
 From IndModel Require Import Base Pos.
 From IndProofs Require Import PosProofs.
 From Coq Require Import ZArith List.
 Open Scope Z_scope.
 
-(** position() equals the value defined by the history (closed form [pos_spec],
-    wrapping at 2^64) and is always a u64 – for every history of u64 arguments. *)
+(** position() equals the value defined by the history – [pos_spec]: the history evaluated in Z
+    without machine arithmetic, reduced mod 2^64 once at the end – and is always a u64, for
+    every history of u64 arguments. *)
 Theorem C07_pos_history : forall (l0 : option N) (ops : list pop),
   match l0 with Some l => (l < U64)%N | None => True end ->
   Forall op_wf ops ->
@@ -29,18 +34,38 @@ Theorem C07_finished_history : forall ops s,
 Proof. exact finished_history. Qed.
 Print Assumptions C07_finished_history.
 
-(** Concurrent inc/dec from any number of threads/clones: every interleaving
-    (any [Merge] of the per-thread op lists) ends at start + sum of all deltas
-    mod 2^64; nothing is lost, length and status untouched.  Assumes each
-    fetch_add/fetch_sub is one atomic step (hardware; see DESIGN "partial"). *)
-Theorem C07_interleaving : forall (ts : list (list pop)) (l : list pop),
+(** Concurrent inc/dec from any number of threads/clones: every interleaving (any [Merge] of
+    the per-thread op lists, each thread's order kept) ends at start + sum of all deltas mod
+    2^64; nothing is lost, length and status untouched.
+    PARTIAL: the statement is about the interleaving semantics in which each inc/dec is ONE
+    indivisible step.  That AtomicU64::fetch_add / fetch_sub (src/state.rs:599, 603) are
+    indivisible is an assumption about std/hardware, not a theorem; a load-then-store
+    implementation (seeded C07-1) satisfies this theorem's model and is caught only by the
+    16-thread stress of the harness. *)
+Theorem C07_interleaving_atomic_partial : forall (ts : list (list pop)) (l : list pop),
   Merge ts l ->
   Forall (Forall is_incdec) ts ->
   forall s, (pos s < U64)%N ->
     Z.of_N (pos (prun s l)) = (Z.of_N (pos s) + total_delta ts) mod 18446744073709551616
     /\ len (prun s l) = len s /\ finished (prun s l) = finished s.
 Proof. exact interleaving. Qed.
-Print Assumptions C07_interleaving.
+Print Assumptions C07_interleaving_atomic_partial.
+
+(** Mixed concurrent histories (set_position / reset / finish / length changes racing with
+    inc/dec): under the same assumption - every call is one step of the interleaving, which
+    for the calls that take the bar's mutex is the mutex and for inc/dec/set_position the
+    single atomic access - every interleaving is an ordinary history, so the three getters
+    are what the history theorems say for THAT interleaving.  (Which interleaving happened
+    is not determined by the program: unlike inc/dec these operations do not commute.) *)
+Theorem C07_interleaving_any_ops_atomic_partial :
+  forall (l0 : option N) (ts : list (list pop)) (l : list pop),
+  match l0 with Some n => (n < U64)%N | None => True end ->
+  Merge ts l -> Forall (Forall op_wf) ts ->
+  Z.of_N (pos (prun (pinit l0) l)) = pos_spec 0 l0 l mod 18446744073709551616
+  /\ option_map Z.of_N (len (prun (pinit l0) l)) = len_spec (option_map Z.of_N l0) l
+  /\ finished (prun (pinit l0) l) = fin_spec false l.
+Proof. exact interleaving_any. Qed.
+Print Assumptions C07_interleaving_any_ops_atomic_partial.
 
 (** Non-vacuity: a concrete wrapping history and a concrete 2-thread merge. *)
 Example C07_nonvacuous_history :
